@@ -1011,7 +1011,7 @@ theorem decode_marshal_ptrmsg_partial (fs : Fields) (v : Val)
 example : Spec.Protobuf.decode (.struct exFields) (marshal (.struct exFields) (.struct exVals)) = some (.struct exVals) := by
   have hm : (lookupProtobuf "").bind parseStructTag = none := modelTag_empty
   have hc : fieldsOf 1 exFields = exCodec := by
-    simp [exFields, exInner, exCodec, fieldsOf, hm, fieldCodecOf, codecOf, isStructBase, baseTy]
+    simp [exFields, exInner, exCodec, fieldsOf, hm, fieldCodecOf, codecOf, isStructBase, embBase, baseTy]
   apply decode_marshal_scalar
   · simp [tyOK, fieldsOK, exFields, exInner, tagAgree_empty, fieldNums, fieldOpt_empty, supportedKind]
   · decide
@@ -1044,7 +1044,7 @@ example : (Spec.Protobuf.decode (.struct exPFields) (marshal (.struct exPFields)
       (canonical (.struct exPFields)) = some (canonical (.struct exPFields) (.struct exPVals)) := by
   have hm : (lookupProtobuf "").bind parseStructTag = none := modelTag_empty
   have hc : fieldsOf 1 exPFields = exPCodec := by
-    simp [exPFields, exInner, exPCodec, fieldsOf, hm, fieldCodecOf, codecOf, isStructBase, baseTy, Codec.wire]
+    simp [exPFields, exInner, exPCodec, fieldsOf, hm, fieldCodecOf, codecOf, isStructBase, embBase, baseTy, Codec.wire]
   apply decode_marshal_partial
   · simp [tyOK, fieldsOK, exPFields, exInner, tagAgree_empty, fieldNums, fieldOpt_empty, supportedKind, ptrTarget,
       elemTy, isPtr, isSlice]
